@@ -28,7 +28,11 @@ func TestSim(t *testing.T) {
 	if os.Getenv("VERIF_SGLOG") == "" {
 		base.DisableTestLogging(t)
 	} else if os.Getenv("VERIF_SGLOG") == "debug" {
-		base.SetUpTestLogging(t, base.LevelDebug, base.KeyAll)
+		lvl := base.LevelDebug
+		if os.Getenv("VERIF_SGLOG_TRACE") != "" {
+			lvl = base.LevelTrace
+		}
+		base.SetUpTestLogging(t, lvl, base.KeyAll)
 	}
 	base.SkipPrometheusStatsRegistration = true // as the repository's own TestMain does
 	verifsim.WorkerMain(t)
